@@ -67,8 +67,9 @@ class Renderer:
     """Renders a Reply to bytes.  ``lit(kind, value) -> bool`` decides whether
     a string is sent as a literal (only consulted when quoting is possible)."""
 
-    def __init__(self, lit):
+    def __init__(self, lit, quote_binary=False):
         self.lit = lit
+        self.quote_binary = quote_binary    # a non-conforming peer: strings that are not UTF-8 inside quotes
         self.out = bytearray()
         self.marks = set()   # interesting cut offsets
         self.spans = []      # (kind, start, end)
@@ -81,7 +82,8 @@ class Renderer:
     def string(self, kind, b):
         out = self.out
         start = len(out)
-        if not can_quote(b) or self.lit(kind, b):
+        raw_ok = self.quote_binary and not (b"\r" in b or b"\n" in b or b"\0" in b)
+        if (not can_quote(b) and not raw_ok) or (not raw_ok and self.lit(kind, b)):
             hdr = b"{%d}" % len(b)
             out += hdr
             self._mark(start + 1, len(out) - 1, len(out))
